@@ -74,7 +74,9 @@ def classify_sent(data):
     elif frame[0] & 0x7F == 0x11 and frame[2] == 0x80:
         d["payload"] = "rrs_answer"
         d["radio"] = socket.inet_ntoa(frame[5:9])
-        d["ok"] = frame[9] == 0 and len(frame) == 16
+        # a success answer a peer can read: result 0, the fixed length, and an option flag that says what follows the header
+        # (a set flag without option octets makes the reader take the payload for options)
+        d["ok"] = frame[9] == 0 and len(frame) == 16 and (d["f"]["opt"] == (off > 0))
     else:
         d["payload"] = "other"
     return d
@@ -239,10 +241,10 @@ def run_loop(args):
                 raw = bytes.fromhex(raw)
                 c = classify_sent(raw)
                 # a datagram produced by the library itself: clean if it is structurally consistent
-                # (the registration answer sets the option flag without option octets: not clean)
                 consistent = c["ok"] and not (c["f"]["opt"] and c["optlen"] == 0 and c["payload"] != "none")
+                answer = c["payload"] == "rrs_answer"
                 m2 = {"valid": consistent, "clean": consistent, "f": c["f"], "sn": max(c["sn"], 0), "optlen": c["optlen"],
-                      "payload": "none" if consistent else "none", "radio": ""}
+                      "payload": "rrs_other" if answer else "none", "radio": c["radio"] if answer else ""}
                 if not consistent:
                     m2 = dict(GARBAGE)
                 q[3 - who].append((raw, m2))
